@@ -521,7 +521,7 @@ Definition spec_fails (c : tcase) : list N :=
 Definition spec_ok (c : tcase) : bool := match spec_fails c with [] => true | _ => false end.
 
 Definition corr_ok (c : tcase) : bool :=
-  let '(w', ok, out) := step hexdigest (t_sems c) (t_pre c) (t_cmd c) in
+  let '(w', ok, out) := step_checked hexdigest (t_sems c) (t_pre c) (t_cmd c) in
   match t_cmd c with
   | CPush _ _ | CFetch _ _ =>
     (* only the traversal is modelled here: where it fails (cycle, unknown stage, empty index)
@@ -540,7 +540,7 @@ Definition run_sys (cs : list tcase) : list (N * N * list N) :=
 
 (* debugging aid for replays: what differs *)
 Definition diff (c : tcase) : list N :=
-  let '(w', ok, out) := step hexdigest (t_sems c) (t_pre c) (t_cmd c) in
+  let '(w', ok, out) := step_checked hexdigest (t_sems c) (t_pre c) (t_cmd c) in
   (if Bool.eqb ok (t_ok c) then [] else [1]) ++
   (if node_eqb (w_root w') (w_root (t_post c)) then [] else [2]) ++
   (if cache_eqb (w_cache w') (w_cache (t_post c)) then [] else [3]) ++
